@@ -39,6 +39,7 @@ type Program struct {
 	MaxPaths int          // tape paths explored at most (0 = default)
 	Hist     []int        // consumer histories (K values) in addition to the drain; nil = default
 	NoRef    bool         // no reference rendering (C07-only cases that use seq directly)
+	Native   bool         // bystander program: the natively built SOURCE package is the reference (C13)
 	MapOrder bool         // traces are compared as sorted multisets (map iteration order)
 	Expect   string       // "" | "reject-or-equiv" (C12)
 	Imports  []string     // extra std imports needed by the program text
@@ -111,6 +112,7 @@ type Outcome struct {
 	CoSource     string
 	RefSource    string
 	OutText      string // generated code of this program's package (singles only) or ""
+	OptFired     bool   // stage-1 and final text of this program's declarations differ (Stage1 runs)
 }
 
 // Opts of a pipeline run.
@@ -233,6 +235,15 @@ type batch struct {
 	progs []*Outcome
 }
 
+func (b *batch) hasNative() bool {
+	for _, o := range b.progs {
+		if o.Prog.Native {
+			return true
+		}
+	}
+	return false
+}
+
 const fileHeaderCo = `package %s
 
 import (
@@ -304,7 +315,7 @@ func (p *Pipeline) writeBatch(b *batch) error {
 	fmt.Fprintf(&rf, fileHeaderRef, b.name, importLines(b.progs))
 	nref := 0
 	for _, o := range b.progs {
-		if o.Prog.NoRef {
+		if o.Prog.NoRef || o.Prog.Native {
 			continue
 		}
 		nref++
@@ -314,7 +325,7 @@ func (p *Pipeline) writeBatch(b *batch) error {
 	var regRef strings.Builder
 	fmt.Fprintf(&regRef, "package %s\n\nvar Reg = map[string]func(){\n", b.name)
 	for _, o := range b.progs {
-		if !o.Prog.NoRef {
+		if !o.Prog.NoRef && !o.Prog.Native {
 			fmt.Fprintf(&regRef, "\t%q: %sE,\n", o.Prog.Name, o.Prog.Prefix())
 		}
 	}
@@ -473,6 +484,68 @@ func fixStage1(dir string) error {
 	return nil
 }
 
+// declTexts maps a program prefix (Pdddd_) to the printed text of its top-level declarations.
+func declTexts(dir string) map[string]string {
+	out := map[string]string{}
+	ents, _ := os.ReadDir(dir)
+	re := regexp.MustCompile(`^P\d{4}_`)
+	for _, e := range ents {
+		if !strings.HasPrefix(e.Name(), "gen") {
+			continue
+		}
+		fset := token.NewFileSet()
+		f, err := parser.ParseFile(fset, filepath.Join(dir, e.Name()), nil, 0)
+		if err != nil {
+			continue
+		}
+		for _, d := range f.Decls {
+			name := ""
+			switch x := d.(type) {
+			case *ast.FuncDecl:
+				name = x.Name.Name
+				if x.Recv != nil && len(x.Recv.List) > 0 {
+					t := x.Recv.List[0].Type
+					if st, ok := t.(*ast.StarExpr); ok {
+						t = st.X
+					}
+					if ix, ok := t.(*ast.IndexExpr); ok {
+						t = ix.X
+					}
+					if id, ok := t.(*ast.Ident); ok {
+						name = id.Name
+					}
+				}
+			case *ast.GenDecl:
+				if len(x.Specs) > 0 {
+					switch sp := x.Specs[0].(type) {
+					case *ast.TypeSpec:
+						name = sp.Name.Name
+					case *ast.ValueSpec:
+						name = sp.Names[0].Name
+					}
+				}
+			}
+			pre := re.FindString(name)
+			if pre == "" {
+				continue
+			}
+			var b bytes.Buffer
+			printer.Fprint(&b, fset, d)
+			out[pre] += b.String() + "\n"
+		}
+	}
+	return out
+}
+
+func (p *Pipeline) markOptFired(b *batch) {
+	s1 := declTexts(filepath.Join(p.SC.Dir, "s1", b.name))
+	fin := declTexts(filepath.Join(p.SC.Dir, "out", b.name))
+	for _, o := range b.progs {
+		pre := o.Prog.Prefix()
+		o.OptFired = s1[pre] != fin[pre]
+	}
+}
+
 func copyFile(from, to string) error {
 	bs, err := os.ReadFile(from)
 	if err != nil {
@@ -609,6 +682,9 @@ func (p *Pipeline) buildRound(bs []*batch, batchMode bool) (good, bad []*batch, 
 		oe, se := outErrs[b.name], s1Errs[b.name]
 		if oe == "" && se == "" {
 			good = append(good, b)
+			if p.Opts.Stage1 {
+				p.markOptFired(b)
+			}
 			continue
 		}
 		if batchMode && len(b.progs) > 1 {
@@ -639,6 +715,9 @@ func (p *Pipeline) runGood(good []*batch) error {
 		if p.Opts.Stage1 {
 			fmt.Fprintf(&m, "\ts_%s \"scratch/s1/%s\"\n", b.name, b.name)
 		}
+		if b.hasNative() {
+			fmt.Fprintf(&m, "\tn_%s \"scratch/src/%s\"\n", b.name, b.name)
+		}
 	}
 	m.WriteString(")\n\nfunc main() {\n")
 	for _, b := range good {
@@ -646,7 +725,11 @@ func (p *Pipeline) runGood(good []*batch) error {
 		if p.Opts.Stage1 {
 			s = "s_" + b.name + ".Reg"
 		}
-		fmt.Fprintf(&m, "\trlib.Add(c_%s.Reg, %s, r_%s.Reg)\n", b.name, s, b.name)
+		n := "nil"
+		if b.hasNative() {
+			n = "n_" + b.name + ".Reg"
+		}
+		fmt.Fprintf(&m, "\trlib.Add(c_%s.Reg, %s, r_%s.Reg, %s)\n", b.name, s, b.name, n)
 	}
 	m.WriteString("\trlib.Main()\n}\n")
 	rundir := fmt.Sprintf("run%d", p.round)
@@ -674,13 +757,14 @@ func (p *Pipeline) runGood(good []*batch) error {
 		Budget    int    `json:"budget"`
 		NoRef     bool   `json:"no_ref"`
 		MapOrder  bool   `json:"map_order"`
+		Native    bool   `json:"native"`
 	}
 	byName := map[string]*Outcome{}
 	var jobs []job
 	for _, b := range good {
 		for _, o := range b.progs {
 			byName[o.Prog.Name] = o
-			j := job{Name: o.Prog.Name, MaxTape: p.Opts.MaxTape, MaxPaths: p.Opts.MaxPaths, Hist: p.Opts.Hist, HistPaths: p.Opts.HistPaths, Budget: p.Opts.Budget, NoRef: o.Prog.NoRef, MapOrder: o.Prog.MapOrder}
+			j := job{Name: o.Prog.Name, MaxTape: p.Opts.MaxTape, MaxPaths: p.Opts.MaxPaths, Hist: p.Opts.Hist, HistPaths: p.Opts.HistPaths, Budget: p.Opts.Budget, NoRef: o.Prog.NoRef || o.Prog.Native, MapOrder: o.Prog.MapOrder, Native: o.Prog.Native}
 			if o.Prog.MaxTape > 0 {
 				j.MaxTape = o.Prog.MaxTape
 			}
